@@ -12,6 +12,7 @@ import (
 	"sort"
 	"strconv"
 	"sync"
+	"sync/atomic"
 )
 
 type Rec struct {
@@ -30,6 +31,13 @@ type Rec struct {
 	Exhaustive  []string               `json:"exhaustive"`
 	maxSamples  int
 }
+
+// progress counts evidence events of the whole process (cases, classes,
+// samples): a process whose count stands still is not getting anywhere.
+var progress int64
+
+// Progress returns the number of evidence events recorded so far.
+func Progress() int64 { return atomic.LoadInt64(&progress) }
 
 var (
 	gmu   sync.Mutex
@@ -67,6 +75,7 @@ func Hash(s string) uint64 {
 // Case records one executed case.  fingerprint identifies the case restricted
 // to what the non-triviality rule mentions; it is only counted when nontrivial.
 func (r *Rec) Case(nontrivial bool, fingerprint string, classes ...string) {
+	atomic.AddInt64(&progress, 1)
 	r.mu.Lock()
 	defer r.mu.Unlock()
 	r.Evaluations++
@@ -83,6 +92,7 @@ func (r *Rec) Case(nontrivial bool, fingerprint string, classes ...string) {
 
 // Class bumps class counters without counting a case.
 func (r *Rec) Class(classes ...string) {
+	atomic.AddInt64(&progress, 1)
 	r.mu.Lock()
 	defer r.mu.Unlock()
 	for _, c := range classes {
@@ -91,6 +101,7 @@ func (r *Rec) Class(classes ...string) {
 }
 
 func (r *Rec) ClassN(class string, n int64) {
+	atomic.AddInt64(&progress, 1)
 	r.mu.Lock()
 	defer r.mu.Unlock()
 	r.Classes[class] += n
@@ -99,6 +110,7 @@ func (r *Rec) ClassN(class string, n int64) {
 // Sample keeps a few of the cases, the first ones and (separately) the first
 // non-trivial ones.
 func (r *Rec) Sample(nontrivial bool, v interface{}) {
+	atomic.AddInt64(&progress, 1)
 	r.mu.Lock()
 	defer r.mu.Unlock()
 	if nontrivial {
